@@ -293,7 +293,9 @@ func (e *Engine) buildCell(s *State, c emitCell) *cellObjs {
 		if c.Single {
 			third = "A"
 		}
-		pairs := e.sliceOf(s, mpT, mkPair(0, "A"), mkPair(1, "A"), mkPair(2, third))
+		// two adjacent keys for A, one for B (or A again), and A once more after it: duplicates of a target both
+		// adjacent and non-adjacent
+		pairs := e.sliceOf(s, mpT, mkPair(0, "A"), mkPair(1, "A"), mkPair(2, third), mkPair(3, "A"))
 		o.pairs = pairs
 		o.attr = a
 		e.setF(s, a, t, "MatchKeyField", o.keyField)
